@@ -313,6 +313,7 @@ func ruleMergeShape(c *Ctx) {
 		// M3 / M5 in mergeDocs
 		fn := mf.mergeDocs
 		b.mergeNamesLiteral(l, fn)
+		b.decodedSidesTestedFirst(l)
 		ml := b.findMemberLoop(fn)
 		if ml == nil || ml.nonNilBlk == nil {
 			l.add("R-MERGESHAPE", b.Name, "anchor member loop of mergeDocs", b.rel(fn.Pos()), Undecided, "range over the patch members with a nil test on the member not found", false)
